@@ -230,38 +230,10 @@ Theorem loader_rejects_when_both_views_invalid :
 Proof. exact (@sanitize_both_invalid). Qed.
 Print Assumptions loader_rejects_when_both_views_invalid.
 
-(* ---- witnesses: the validity test before commit ff42a61 refutes the property;
-        the preconditions on keys and loader arguments are needed ---- *)
+(* ---- regression of the fixed finding: the validity test as it was before
+        commit ff42a61 rejects good statistics with a negative sum ---- *)
 Theorem validity_before_fix_refuted :
   exists r0 r1 c, good_stats ZC (Arr2 DF64 r0 r1) /\ last_opt r0 = Some c /\
                   stats_valid ZC c r0 r1 = true /\ stats_valid_before_fix ZC c r0 r1 = false.
 Proof. exact validity_before_fix_rejects_negative_sums. Qed.
 Print Assumptions validity_before_fix_refuted.
-
-Theorem key_allow_pickle_refuted :
-  exists fs', save ZC fs_empty wit_obj "s.npz" (Some "allow_pickle"%string) false true = Ok fs' /\
-              fs' "s.npz"%string = Some (FNpz false []) /\
-              init ZC no_reinterp id_cast never never fs' (Some "s.npz"%string) true
-                   (Kw None (Some "allow_pickle"%string) None) = Raise KeyError.
-Proof. exact key_allow_pickle_lost. Qed.
-Print Assumptions key_allow_pickle_refuted.
-
-Theorem key_file_refuted :
-  save ZC fs_empty wit_obj "s.npz" (Some "file"%string) false true = Raise TypeError.
-Proof. exact key_file_typeerror. Qed.
-Print Assumptions key_file_refuted.
-
-Theorem key_empty_refuted :
-  exists fs', save ZC fs_empty wit_obj "s.npz" (Some ""%string) false true = Ok fs' /\
-              init ZC no_reinterp id_cast never never fs' (Some "s.npz"%string) true
-                   (Kw None (Some ""%string) None) = Raise KeyError.
-Proof. exact key_empty_not_reloadable. Qed.
-Print Assumptions key_empty_refuted.
-
-Theorem raw_explicit_dtype_refuted :
-  exists fs' o', save ZC fs_empty wit_obj "stats.bin" None false true = Ok fs' /\
-                 init ZC no_reinterp id_cast never never fs' (Some "stats.bin"%string) true
-                      (Kw (Some DF64) None (Some FaFile)) = Ok o' /\
-                 have_stats ZC o' = Raise IndexError.
-Proof. exact raw_explicit_dtype_unusable. Qed.
-Print Assumptions raw_explicit_dtype_refuted.
